@@ -1,3 +1,5 @@
 import MementoModel.Model.Cache
 import MementoModel.Lemmas.CacheLemmas
 import MementoModel.Props.C06
+import MementoModel.Model.Store
+import MementoModel.Props.C05
